@@ -20,11 +20,16 @@ def strip_has(node):
     return node
 
 
-def api_potentials(m, container="list"):
+def api_potentials(m, container="list", wrap=None):
     """Potential objects of the model; `container` chooses how they are handed to the writer: the API documents an
     'iterable containing Potential objects', so a tuple or a one-shot iterator must work like a list"""
     b = build_api.Builder(m["env"])
-    pots = [ap.Potential(a, bb, b.potdef(pd)) for a, bb, pd in m["pair"]]
+    pots = []
+    for a, bb, pd in m["pair"]:
+        f = b.potdef(pd)
+        if wrap is not None:
+            f = wrap("pair", (a, bb), f)
+        pots.append(ap.Potential(a, bb, f))
     if container == "tuple":
         return tuple(pots)
     if container == "iterator":
